@@ -119,6 +119,8 @@ def gen_trace(recipe):
     for _ in range(recipe['n']):
       d = int(rng.integers(2, 7))
       X, y = gen.dataset(rng, d=d)
+      # unscaled features: standardised data (all the suite uses), tiny and large magnitudes (an exact power of two keeps the grid)
+      X = X * float(2.0 ** int(rng.choice([0, 0, -12, -6, 8, 15])))
       idx, lab = gen.pairs_from(rng, X, y, 3 * d + 6)
       as_tuples = bool(rng.integers(2))
       inp = X[idx] if as_tuples else X                     # tuples: points repeat -> must be de-duplicated
@@ -148,6 +150,11 @@ def gen_trace(recipe):
       sing = np.zeros((d, d))
       if rng.random() < 0.8:
         sing[:d - 1, :d - 1] = spd[:d - 1, :d - 1]
+      # the inverse returned with an array prior, over a wide range of magnitudes
+      for sc in (1.0, float(2.0 ** int(rng.integers(-30, -5))), float(2.0 ** int(rng.integers(5, 31)))):
+        out, res = outcome_of(lambda: _initialize_metric_mahalanobis(inp, spd * sc, random_state=seed, return_inverse=True))
+        if res:
+          events.append({'ev': 'Inverse', 'd': d, 'M': dym(res[0]), 'Minv': dym(res[1])})
       nonsym = spd.copy(); nonsym[0, 1] += 1.0
       indef = spd.copy(); indef[0, 0] = -5.0 * abs(spd).max()
       wrong = np.eye(d + 1)
